@@ -117,12 +117,19 @@ def check(case, mode):
     cur = c
     done = set()
     applied = []
+    early_refused = False
     has_macros = bool(prog["macros"])
     ctx = f"--- overrides {env}\n--- program:\n{text}"
     for step, name in enumerate(hist):
-        if name == "map" and not (("let" in done or not env) and ("mac" in done or not has_macros)):
-            continue  # not applicable yet: it would resolve through declared let values / unbound parameters
+        early = name == "map" and not (("let" in done or not env) and ("mac" in done or not has_macros))
+        if early and env and "let" not in done:
+            continue  # not applicable yet: it would resolve through the DECLARED let values
         st_, nxt = _apply(name, cur, env)
+        if early and st_ == "err":
+            # alias fill-in before macro expansion may refuse (a macro body that indexes one of
+            # its parameters cannot be resolved yet) - but if it answers, the answer must be right
+            early_refused = True
+            continue
         if st_ == "err":
             raise Violation("pass-rejected-valid-circuit", f"{name} after {applied}: {nxt}\n{ctx}", where=name)
         applied.append(name)
@@ -163,6 +170,10 @@ def check(case, mode):
         classes.append("has-override")
     if "map" in done:
         classes.append("map-applied")
+        if has_macros and "mac" not in done or (applied.index("map") < applied.index("mac") if "mac" in applied else False):
+            classes.append("map-before-macro-expansion")
+    if early_refused:
+        classes.append("map-refused-before-macro-expansion")
     return {"nontrivial": nt, "classes": classes, "key": mode + text + repr(sorted(env.items())) + repr(hist), "sample": {"mode": mode, "text": text, "overrides": env, "history": hist}}
 
 
